@@ -298,7 +298,7 @@ def enumerate_dfs(tier):
                         "n2": 2 if scenario in ("twice", "abandon_reuse",
                                                 "stale_close") else 0,
                         "bound": 1 if tier == "quick" else 2,
-                        "budget": 3000 if tier == "quick" else 150000,
+                        "budget": 3000 if tier == "quick" else 50000,
                     })
     return cases
 
@@ -406,7 +406,7 @@ STAGES = [
           strategy=lambda tier: strategy_schedules(tier),
           examples={
               "quick": 24000,
-              "thorough": 600000
+              "thorough": 300000
           }),
     Stage(name="dfs",
           run=run_dfs,
